@@ -228,6 +228,7 @@ structure ExecEvent where
 structure Batch where
   paths : List Bytes          -- appended so far, in order
   remaining : Int             -- `remaining_argument_length`
+  cwd : Option Bytes := none  -- `current_dir` set on the pending command (an entry without a parent)
   deriving Repr
 
 /-- what is threaded through a whole run -/
@@ -309,7 +310,7 @@ def Batch.tryArg (b : Batch) (a : Bytes) : Option Batch :=
 def newBatch (budget : Nat) (cmd : Bytes) (fixed : List Bytes) : Option Batch :=
   let total := (fixed.map argSize).foldl (· + ·) 0
   if fixed.any (·.length > maxSingleArg) || total > availableLength budget cmd then none
-  else some ⟨[], availableLength budget cmd - total⟩
+  else some { paths := [], remaining := availableLength budget cmd - total }
 
 def setPending (g : GS) (id : Nat) (b : Option Batch) : GS :=
   { g with pending := (match b with | some b => [(id, b)] | none => []) ++ g.pending.filter (·.1 != id) }
@@ -318,6 +319,11 @@ def setPending (g : GS) (id : Nat) (b : Option Batch) : GS :=
 def runBatch (g : GS) (cmdOk : Bool) (cmd : Bytes) (fixed : List Bytes) (b : Batch) (cwd : Option Bytes) : GS × Bool :=
   let r := g.spawn cmdOk (cmd :: fixed ++ b.paths) cwd
   (r.2, r.1 != some 0)
+
+/-- `-execdir … +` on an entry without a parent directory (the starting point `/`): the pending
+    command is told to run from that entry, because `finished_dir` will never be called for it -/
+def rootCwd (dir : Bool) (path : Bytes) (b : Batch) : Batch :=
+  if dir && (FuModel.Path.parent path).isNone then { b with cwd := some path } else b
 
 def sem (start : Bytes) (v : Visit Attr) (p : Prim) (s : ES) : Bool × ES :=
   let path := pathOf start v.ent.rpath
@@ -377,7 +383,7 @@ def sem (start : Bytes) (v : Visit Attr) (p : Prim) (s : ES) : Bool × ES :=
     | none => (true, { s with gs := { s.gs with panicked := true } })
     | some b =>
       match b.tryArg arg with
-      | some b' => (true, { s with gs := setPending s.gs id (some b') })
+      | some b' => (true, { s with gs := setPending s.gs id (some (rootCwd dir path b')) })
       | none =>
         -- dispatch what has been collected, start afresh
         let r := runBatch s.gs cmdOk cmd fixed b (execCwd dir path)
@@ -386,8 +392,8 @@ def sem (start : Bytes) (v : Visit Attr) (p : Prim) (s : ES) : Bool × ES :=
         | none => (true, { s1 with gs := { s1.gs with panicked := true } })
         | some nb =>
           match nb.tryArg arg with
-          | some nb' => (true, { s1 with gs := setPending s1.gs id (some nb') })
-          | none => (true, { s1 with gs := setPending s1.gs id (some nb), exit := 1 })
+          | some nb' => (true, { s1 with gs := setPending s1.gs id (some (rootCwd dir path nb')) })
+          | none => (true, { s1 with gs := setPending s1.gs id (some (rootCwd dir path nb)), exit := 1 })
 
 /-- the `+` primaries of a tree, for `finished_dir` / `finished` -/
 def M.multis : M Prim → List (Nat × Bool × Bool × Bytes × List Bytes)
@@ -413,6 +419,17 @@ def flushMultis (execdir : Bool) (dirArg : Bytes) : List (Nat × Bool × Bool ×
         flushMultis execdir dirArg rest (setPending r.1 id none) (failed || r.2)
       | none => flushMultis execdir dirArg rest g failed
     else flushMultis execdir dirArg rest g failed
+
+/-- `finished()`: every batch still open is dispatched — those of `-exec`, and those of `-execdir`
+    that `finished_dir` never saw (an entry without a parent directory: the starting point `/`) -/
+def flushAll : List (Nat × Bool × Bool × Bytes × List Bytes) → GS → Bool → GS × Bool
+  | [], g, failed => (g, failed)
+  | (id, _, ok, cmd, fixed) :: rest, g, failed =>
+    match g.pending.lookup id with
+    | some b =>
+      let r := runBatch g ok cmd fixed b b.cwd
+      flushAll rest (setPending r.1 id none) (failed || r.2)
+    | none => flushAll rest g failed
 
 /-- one entry: the `current_dir` bookkeeping of `process_dir`, then the expression -/
 def evalEntry (m : M Prim) (start : Bytes) (v : Visit Attr) (g : GS) : EvalOut × GS :=
@@ -465,7 +482,7 @@ def finishDir (m : M Prim) (g : GS) : GS × Bool :=
   let r1 := match g.curDir with
     | some d => flushMultis true d (M.multis m) g false
     | none => (g, false)
-  let r2 := flushMultis false [] (M.multis m) r1.1 r1.2
+  let r2 := flushAll (M.multis m) r1.1 r1.2
   ({ r2.1 with curDir := none }, r2.2)
 
 /-- one starting point; `none` = it cannot be examined at all -/
